@@ -19,7 +19,8 @@
      its s                     : the generators created so far (kind, finished or not)
      typed_receive / reads_raw : receive_text/bytes, iter_*, IterStep  /  receive(), accept(). *)
 From Coq Require Import List NArith ZArith Sorting.Sorted.
-From Baize Require Import Lib.Wire C11.Model C11.Proofs.
+From Baize Require Import Lib.Wire C11.Model C11.Proofs C11.Denial C11.DenialProofs C11.DenialResp.
+From Baize Require C02.Model C05.Model.
 Import ListNotations.
 
 (* The events forwarded to the server form a legal ASGI application sequence:
@@ -190,6 +191,138 @@ Theorem states_monotone : forall (calls : list call) (script : list msg),
   (forall o, In o (observations calls script) -> st_le (o_before o) (o_after o)).
 Proof. exact states_monotone_proof. Qed.
 
+(* ====================================================================== *)
+(* WebsocketDenialResponse, request_response, websocket_session (C11/Denial.v) *)
+(* ====================================================================== *)
+(* Vocabulary (C11/Denial.v, C11/DenialProofs.v):
+     denial stype resp e sc     : WebsocketDenialResponse(resp)(scope, receive, send) on a scope of type [stype] whose
+                                  extensions are [e] (no key / a mapping without / with "websocket.http.response") and a
+                                  server that delivers [sc]: (outcome, script left, trace)
+     inner = (acts, raises)     : one run of the wrapped HTTP response: its send(m) / receive() calls in order (a send may
+                                  swallow the ValueError), then it returns or raises; every run that ends is such a list
+     dfwd / drecvd / dgots      : of a trace: the messages passed to the server's send(), handed over by the server's
+                                  receive(), returned to the inner response by the receive it was given
+     http_legal                 : recogniser of  http.response.start (http.response.body more)* (http.response.body final)
+     denial_seq / denial_prefix : the same language over websocket.http.response.start / .body, resp. its prefixes
+     legal_denial               : exactly [websocket.close], or denial_seq
+     rename / mappable          : ws_send's renaming of the type (entries untouched) / the type is in the mapping
+     ran_to_end out             : the inner response returned or raised an exception of its own
+     handed_at_once             : every websocket.disconnect delivered is at once followed by the hand-over of the same
+                                  entries as http.disconnect, and nothing else is ever handed over. *)
+
+(* The events a denial forwards form a legal denial.
+   - not a websocket scope: AssertionError, nothing happens;
+   - no response given, or the extension not offered: exactly {"type": "websocket.close"}, the call returns, the server
+     is asked nothing;
+   - whatever the inner response does, only websocket.close / websocket.http.response.start / .body ever reach the
+     server: never an http.* event, and no event of the extension unless it is offered and a response is given;
+   - with both: what reaches the server is, type renamed and entries untouched, what the inner response sent up to
+     some point (all of it when it ran to its end), minus unsupported events it swallowed itself;
+   - so when the inner response's own trace is a legal HTTP response trace: no ValueError, what is forwarded is always a
+     prefix of a legal denial (a start, then bodies of which only the last can have more_body false: nothing after
+     it), and the complete legal denial once the inner response ran to its end. *)
+Theorem denial_legal : forall (stype : list N) (resp : option inner) (e : ext) (sc : list msg),
+  match denial stype resp e sc with
+  | (out, rest, tr) =>
+      (stype <> t_websocket -> out = DExn AssertionError /\ tr = [] /\ rest = sc) /\
+      (stype = t_websocket -> resp = None \/ e <> ExtOffered ->
+         out = DReturned /\ tr = [DFwd close_only] /\ rest = sc) /\
+      Forall (fun m => has_type t_close m = true \/ has_type t_ws_start m = true \/ has_type t_ws_body m = true)
+             (dfwd tr) /\
+      Forall (fun m => is_http_type m = false) (dfwd tr) /\
+      (resp = None \/ e <> ExtOffered -> Forall (fun m => is_ext_type m = false) (dfwd tr)) /\
+      (forall r, stype = t_websocket -> resp = Some r -> e = ExtOffered ->
+         (exists k, dfwd tr = map rename (filter mappable (firstn k (sends (acts r)))) /\
+                    (ran_to_end out -> firstn k (sends (acts r)) = sends (acts r))) /\
+         (http_legal (sends (acts r)) = true ->
+            denial_prefix (dfwd tr) = true /\
+            (forall t, out <> DValueError t) /\
+            (ran_to_end out -> dfwd tr = map rename (sends (acts r)) /\ denial_seq (dfwd tr) = true))) /\
+      (stype = t_websocket ->
+       resp = None \/ e <> ExtOffered \/
+       (exists r, resp = Some r /\ http_legal (sends (acts r)) = true /\ ran_to_end out) ->
+       legal_denial (dfwd tr) = true)
+  end.
+Proof. exact denial_legal_proof. Qed.
+
+(* The premise with C05's recogniser: a response whose event trace C05 accepts as a legal complete ASGI response
+   (asgi_legal true; no zero-copy event) sends a legal HTTP response trace, and its denial is legal: through the
+   extension the client gets that very response renamed, otherwise websocket.close; the server is asked nothing. *)
+Theorem denial_of_legal_response : forall (evs : list C02.Model.event) (e : ext) (sc : list msg),
+  C05.Model.asgi_legal true evs = true -> forallb plain_event evs = true ->
+  http_legal (map msg_of_event evs) = true /\
+  match denial t_websocket (Some (inner_of_events evs)) e sc with
+  | (out, rest, tr) =>
+      out = DReturned /\ rest = sc /\ no_drecv tr = true /\ legal_denial (dfwd tr) = true /\
+      dfwd tr = (if offered e then map rename (map msg_of_event evs) else [close_only])
+  end.
+Proof. exact denial_of_legal_response_proof. Qed.
+
+(* The receive side.  The server's events are consumed in script order, none twice.  The inner response is handed
+   http.disconnect exactly when the server delivered websocket.disconnect: at once, with the same entries, one for
+   one and in order; every other event is dropped and nothing else is handed over.  An inner response that asks at
+   most once (baize's streaming responses stop asking at the first http.disconnect, the others never ask) causes no
+   receive() after the disconnect was delivered; without a response or without the extension the server is never asked. *)
+Theorem denial_receive : forall (stype : list N) (resp : option inner) (e : ext) (sc : list msg),
+  match denial stype resp e sc with
+  | (out, rest, tr) =>
+      drecvd tr ++ rest = sc /\
+      handed_at_once tr /\
+      dgots tr = map to_http_disconnect (filter (has_type t_disconnect) (drecvd tr)) /\
+      (forall r, resp = Some r -> count_recv (acts r) <= 1 -> no_drecv_after_disconnect tr = true) /\
+      (resp = None \/ e <> ExtOffered -> no_drecv tr = true)
+  end.
+Proof. exact denial_receive_proof. Qed.
+
+(* One call of the receive given to the inner response: it drops every event before the first websocket.disconnect,
+   returns that one as http.disconnect and has then asked the server for nothing more; or the script runs out first
+   (a real server blocks: the call never returns); or an event without "type" raises KeyError. *)
+Theorem ws_receive_call : forall (sc : list msg) (x : dout + msg) (rest : list msg) (t : list dev),
+  dn_recv sc = (x, rest, t) ->
+  exists pre,
+    Forall (fun m => has_type t_disconnect m = false /\ mtype m <> None) pre /\
+    ((exists d, has_type t_disconnect d = true /\ sc = pre ++ d :: rest /\
+                x = inr (to_http_disconnect d) /\ t = map some_recv pre ++ [some_recv d]) \/
+     (sc = pre /\ rest = [] /\ x = inl (DExn Blocked) /\ t = map some_recv pre ++ [DRecv None]) \/
+     (exists m, mtype m = None /\ sc = pre ++ m :: rest /\
+                x = inl (DExn (KeyError k_type)) /\ t = map some_recv pre ++ [some_recv m])).
+Proof. exact ws_receive_call_proof. Qed.
+
+(* The shortcuts dispatch on the scope type.
+   request_response, websocket scope: the denial of Response(404), the view is not called - without the extension
+     the server gets exactly websocket.close (the client sees the handshake refused), with it a 404 with an empty
+     body as websocket.http.response.start / .body;
+   request_response, http scope: the view is called, its response talks to the server directly (events unchanged);
+   websocket_session, http scope: the view is not called; the client gets a 404, content-length 0, empty body - a legal
+     HTTP response - and the server is asked nothing;
+   websocket_session, websocket scope: the view's calls are exactly a session of the WebSocket model, so every theorem
+     above (forwarded_legal, no_receive_after_disconnect, frames_in_order_once, ...) applies to them;
+   any other scope type (lifespan): AssertionError from the Request / WebSocket constructor, nothing is sent. *)
+Theorem shortcut_scope_dispatch :
+  (forall (e : ext) (view : inner) (sc : list msg),
+     request_response t_websocket e view sc = denial t_websocket (Some plain404) e sc /\
+     rr_view_called t_websocket = false /\
+     (e <> ExtOffered -> request_response t_websocket e view sc = (DReturned, sc, [DFwd close_only])) /\
+     (e = ExtOffered ->
+        request_response t_websocket e view sc = (DReturned, sc, [DFwd ws_start404; DFwd ws_body_empty]))) /\
+  (forall (e : ext) (view : inner) (sc : list msg),
+     request_response t_http e view sc = run_direct view sc /\ rr_view_called t_http = true /\
+     match run_direct view sc with
+     | (out, rest, tr) => exists k, dfwd tr = firstn k (sends (acts view)) /\
+                                    (ran_to_end out -> dfwd tr = sends (acts view))
+     end) /\
+  (forall (calls : list call) (sc : list msg),
+     websocket_session t_http calls sc = WsHttp (DReturned, sc, [DFwd start404; DFwd body_empty]) /\
+     http_legal [start404; body_empty] = true) /\
+  (forall (calls : list call) (sc : list msg),
+     websocket_session t_websocket calls sc = WsSession (session calls sc) /\
+     legal (forwarded (full_trace calls sc)) = true) /\
+  (forall (stype : list N), stype <> t_websocket -> stype <> t_http ->
+     (forall e view sc, request_response stype e view sc = (DExn AssertionError, sc, []) /\
+                        rr_view_called stype = false) /\
+     (forall calls sc, websocket_session stype calls sc = WsAssert)).
+Proof. exact shortcut_scope_dispatch_proof. Qed.
+
 Print Assumptions forwarded_legal.
 Print Assumptions application_state_is_phase.
 Print Assumptions transition_before_forward.
@@ -207,3 +340,8 @@ Print Assumptions frames_in_order_once.
 Print Assumptions close_closes.
 Print Assumptions close_idempotent.
 Print Assumptions states_monotone.
+Print Assumptions denial_legal.
+Print Assumptions denial_of_legal_response.
+Print Assumptions denial_receive.
+Print Assumptions ws_receive_call.
+Print Assumptions shortcut_scope_dispatch.
